@@ -15,6 +15,7 @@ from pyvc.se import (State, ArrData, ListData, ObjData, Opaque, Ref, Engine, fre
                      is_z3, Unsupported, z3bool)
 from pyvc.unit import se_unit, returns, raises, get_repo
 from pyvc.lib import Lib, as_array, arr_of
+from pyvc import cex
 
 FL = "skactiveml/utils/_label.py"
 MISS = z3.Function("MISSING", USort, USort, B)
@@ -45,6 +46,8 @@ def unit_is_labeled(ndim):
         shape = (n,) if ndim == 1 else (n, m)
         y = ArrData(shape, fresh_sel("y", "o", ndim), "o")
         ml = Opaque("missing_label")
+        E.default_concretize = lambda ev: {"family": "labels", "fn": "is_labeled", "sig": "counter-model", "y": cex.arr(ev, y),
+                                           "missing": cex.missing_flags(ev, y, MISS, ml)}
         return {"args": [st.alloc(y), ml], "y": y, "ml": ml, "shape": shape}
 
     def post(E, ctx, outs):
@@ -72,6 +75,8 @@ def unit_indices(which):
         st.assume(n >= 0)
         y = ArrData((n,), fresh_sel("y", "o"), "o")
         ml = Opaque("missing_label")
+        E.default_concretize = lambda ev: {"family": "labels", "fn": which, "sig": "counter-model", "y": cex.arr(ev, y),
+                                           "missing": cex.missing_flags(ev, y, MISS, ml)}
         return {"args": [st.alloc(y), ml], "y": y, "ml": ml, "n": n}
 
     def post(E, ctx, outs):
@@ -100,6 +105,7 @@ def unit_is_unlabeled_nan():
         n = z3.Int("n")
         st.assume(n >= 1)
         y = ArrData((n,), fresh_sel("y", "f"), "f")
+        E.default_concretize = lambda ev: {"family": "labels", "fn": "is_unlabeled", "sig": "counter-model", "y_float": cex.arr(ev, y)}
         return {"args": [st.alloc(y), float("nan")], "y": y, "n": n}
 
     def post(E, ctx, outs):
@@ -125,6 +131,8 @@ def unit_is_unlabeled_empty(ndim):
         st.assume(k >= 1)
         shape = (0,) if ndim == 1 else (0, k)
         y = ArrData(shape, fresh_sel("y", "f", ndim), "f")
+        E.default_concretize = lambda ev: {"family": "labels", "fn": "is_unlabeled", "sig": "counter-model", "y_float": [],
+                                           "shape": [0] if ndim == 1 else [0, cex.ival(ev, k)]}
         return {"args": [st.alloc(y), Opaque("missing_label")], "shape": shape}
 
     def post(E, ctx, outs):
